@@ -30,7 +30,9 @@ String Url::decode(const String& q0)
 				break;
 			b[0] = q0[i + 1];
 			b[1] = q0[i + 2];
-			q << (char)strtoul(b, NULL, 16);
+			char ch = (char)strtoul(b, NULL, 16);
+			if (ch != '\0') // a decoded NUL would end the C string and hide what follows from later checks
+				q << ch;
 			i += 2;
 		}
 		else
